@@ -91,7 +91,7 @@ def mk_struct(kind, n, generic=False):
 
 
 # bound(...) decorations: they may change the where-clause, never the behaviour (non-generic W fields need no bound)
-DECOR = ["", "per-trait:bound()", "shared:bound()", "per-trait:bound(..)", "field0:T(bound())", "fieldlast:bound()", "field0:T(bound(..))"]
+DECOR = ["", "per-trait:bound()", "shared:bound()", "per-trait:bound(..)", "field0:T(bound())", "fieldlast:bound()", "field0:T(bound(..))", "fieldlast:T(bound(..))", "fieldlast:T(bound())", "fieldlast:T"]
 
 
 def build(name, t, what, tr, fn, code, entry, decor="", co=()):
@@ -105,7 +105,8 @@ def build(name, t, what, tr, fn, code, entry, decor="", co=()):
         la = "%s, %s" % (trait, decor.split(":", 1)[1])
     elif decor.startswith("field") and fs:
         f = fs[0] if decor.startswith("field0") else fs[-1]
-        f.extra_attrs.append("#[derive_ex(%s)]" % decor.split(":", 1)[1].replace("T(", trait + "("))
+        spec = decor.split(":", 1)[1]
+        f.extra_attrs.append("#[derive_ex(%s)]" % (trait if spec == "T" else spec.replace("T(", trait + "(")))
     t.shape += ("+" + decor) if decor else ""
     stacked = [c for c, where in co if where == "stacked"]
     la = ", ".join([c for c, where in co if where == "before"] + [la] + [c for c, where in co if where == "after"])
